@@ -168,6 +168,45 @@ def pool(contract, seed=0, limit=4000):
                 for addl in (True, False, String(), Nothing(), Number()):
                     yield fn, (Items.__new__(Items), items, addl)
         return
+    if key.endswith("helpers:custom_repr_args") and contract.inst:
+        import statham.schema.elements as _E
+        K = getattr(_E, contract.inst)
+        full = {"String": dict(default="d", const="c", enum=["a", "c"], format="uuid", pattern="^a", minLength=1, maxLength=3, description="t"),
+                "Integer": dict(default=0, const=1, enum=[1, 2], minimum=0, maximum=9, exclusiveMinimum=-1, exclusiveMaximum=10, multipleOf=1, description=""),
+                "Number": dict(default=0.5, const=1.5, enum=[1.5], minimum=0.0, maximum=9, exclusiveMinimum=-1, exclusiveMaximum=10.5, multipleOf=0.5, description="n"),
+                "Boolean": dict(default=False, const=True, enum=[True, False], description="b"),
+                "Null": dict(default=None, const=None, enum=[None], description="z")}[contract.inst]
+        extra = [lambda: K(), lambda: K(**full)] + [lambda k=k, v=v: K(**{k: v}) for k, v in full.items()]
+        yield from cap((fn, (mk(),)) for mk in list(instances_of(contract.inst)) + extra)
+        return
+    if cls_name == "_PropertyDict" and meth == "required":
+        def pdicts():
+            for mk in element_makers():
+                try:
+                    e = mk()
+                    p = getattr(e, "properties", None)
+                    if p is not None and type(p).__name__ == "_PropertyDict":
+                        yield p
+                except Exception:
+                    continue
+        yield from cap((fn, (p,)) for p in pdicts())
+        return
+    if cls_name == "Properties" and meth == "__init__":
+        from statham.schema.constants import NotPassed
+        from statham.schema.elements.properties import Properties
+
+        def init_args():
+            for mk in element_makers():
+                try:
+                    e = mk()
+                    yield fn, (Properties.__new__(Properties), e, getattr(e, "properties", NotPassed()), getattr(e, "patternProperties", NotPassed()),
+                               getattr(e, "additionalProperties", True))
+                except Exception:
+                    continue
+        yield from cap(init_args())
+        return
+    if key.endswith("_FormatString.register._register_callable"):
+        return      # nested function: no live handle
     if cls_name in ("Properties", "PatternDict"):
         def props_objs():
             for mk in element_makers():
@@ -222,10 +261,22 @@ def pool(contract, seed=0, limit=4000):
         elif meth == "__call__":
             yield from cap((fn, (p, v)) for p in props() for v in vals[::3])
         return
+    if key.endswith("format:_FormatString.__call__"):
+        from statham.schema.validation.format import format_checker
+        if "Verif-Mixed-Case" not in format_checker._callable_register:
+            format_checker.register("Verif-Mixed-Case")(lambda v: False)
+        names = ["uuid", "date-time", "UUID", "Date-Time", "x-unregistered", "X-Unregistered", "Verif-Mixed-Case", "verif-mixed-case", ""]
+        svals = ["123e4567-e89b-12d3-a456-426614174000", "not-a-uuid", "2020-01-01T00:00:00Z", "", "abc"]
+        yield from cap((fn, (format_checker, n_, v)) for n_ in names for v in svals)
+        return
     if key.startswith("spec.lemma_stubs:vals_"):
         # lemma carriers: real elements, their real validator lists, real values (shows the hypotheses are satisfiable and
         # evaluates the conclusion natively)
         only_classes = "cls" in (contract.inst or "")
+        inst0 = (contract.inst or "").split(".")[0]
+        TYPES_OF = {"types__": ("Element", "Not", "AnyOf", "OneOf", "AllOf"), "types_str__": ("String",), "types_int__": ("Integer",), "types_float__int_": ("Number",),
+                    "types_bool__": ("Boolean",), "types_NoneType__": ("Null",), "types_list__": ("Array",)}
+        want_classes = TYPES_OF.get(inst0) or ((inst0,) if inst0 in ("Element", "String", "Integer", "Number", "Boolean", "Null", "Array", "Not", "AnyOf", "OneOf", "AllOf") else None)
 
         def triples():
             for mk in element_makers():
@@ -233,6 +284,8 @@ def pool(contract, seed=0, limit=4000):
                     from spec import pyspec
                     e = mk()
                     if only_classes and not isinstance(e, type):
+                        continue
+                    if want_classes and type(e).__name__ not in want_classes:
                         continue
                     vs = pyspec.validators_of(e)
                 except Exception:
